@@ -85,6 +85,22 @@ def run_core(ck, agg):
     return _core(ck, agg)
 
 
+class _Only:
+    """an aggregator view that keeps the obligations of one construct (for a check that re-runs a single rule of this module)"""
+
+    def __init__(self, agg, prefix):
+        self.agg, self.prefix = agg, prefix
+
+    def add(self, rule, where, construct, ok, detail="", node=None):
+        if construct.startswith(self.prefix):
+            self.agg.add(rule, where, construct, ok, detail, node)
+
+
+def caller_frame_untouched(ck, agg):
+    """R06.5 (caller's frame): re-run of the enqueue scenarios keeping only the obligation that the caller's frame is left as received"""
+    return _core(ck, _Only(agg, "enqueue() leaves the caller's frame as received"))
+
+
 def run(ck):
     ck.explanation = (
         "Static analysis of FrameQueueFrag.enqueue by path-sensitive abstract interpretation with a fully symbolic reassembly cache and a "
@@ -141,12 +157,32 @@ def _core(ck, agg):
             q = net.sym_queue(st, ck.prog, "FrameQueueFrag", nframes=(1 if kind == "LAST" else 0), max_size=(None if kind == "LAST" else 6), cache_pins=pins)
             cache = st.heap[q.ident].fields[cf]
             frame = net.sym_frame(st, ck.prog, "frame", {"message_type": typ})
+            fh0 = dict(st.heap[st.heap[frame.ident].fields["header"].ident].fields)      # snapshot: the run may continue in this very state object
             outs, it = net.run(ck, f, cls, q, [frame], st)
             label = "%s fragment, cache %s" % (kind, "holding a message" if cache_from == "int" else "empty (sentinel)")
             for out in outs:
                 if out.kind != "return":
                     agg.add("R06.5", f, "enqueue() does not raise", False, "%s: raises %s" % (label, out.value.exc), out.value.node)
                     continue
+                # the caller's frame stays as it was received: its receiver goes on using it (a relay re-broadcasts it, update() reports its
+                # type) - the one documented write-back is NETWORK_EXT_DATA for a completed external-data message
+                fh1 = out.state.heap[out.state.heap[frame.ident].fields["header"].ident].fields if isinstance(out.state.heap[frame.ident].fields.get("header"), Ref) else {}
+                for fld in net.HDR_FIELDS:
+                    v0, v1 = fh0.get(fld), fh1.get(fld)
+                    same_ = v0 is not None and v1 is not None and norm(v0).key() == norm(v1).key()
+                    if not same_ and v0 is not None and v1 is not None and isinstance(norm(v1), Const):
+                        # the symbol was only *refined* by a test on the path (`reserved == NETWORK_EXT_DATA` taken as true), not written
+                        for e in out.trace:
+                            if e.kind == "cond" and isinstance(e.node, ast.Compare) and isinstance(e.data[1], tuple) and len(e.data[1]) == 2 and isinstance(e.node.ops[0], (ast.Eq, ast.NotEq)):
+                                eq_ = e.data[0] if isinstance(e.node.ops[0], ast.Eq) else not e.data[0]
+                                ks = {norm(x).key() for x in e.data[1]}
+                                if eq_ and ks == {norm(v0).key(), norm(v1).key()}:
+                                    same_ = True
+                    ext_ok = fld == "message_type" and const_of(norm(v1)) == K["NETWORK_EXT_DATA"] and any(
+                        e.kind == "cond" and e.data[0] is True and isinstance(e.data[1], tuple) and any(const_of(norm(x)) == K["NETWORK_EXT_DATA"] for x in e.data[1]) and
+                        any("frame.header.reserved" in net.base_deps(x) for x in e.data[1]) for e in out.trace)
+                    agg.add("R06.5", f, "enqueue() leaves the caller's frame as received (only a completed external-data message is marked NETWORK_EXT_DATA)", same_ or ext_ok,
+                            "%s: the caller's header.%s becomes %r (was %r) - a relay re-broadcasts the altered frame, update() reports the altered type" % (label, fld, v1, v0))
                 cur_cache = out.state.heap[q.ident].fields[cf]
                 sp = splices(out, cache) if isinstance(cur_cache, Ref) and cur_cache.ident == cache.ident else []
                 dl = deliveries(out, qf)
